@@ -66,9 +66,10 @@ defvjp(pinv, grad_pinv)
 
 
 def grad_solve(argnum, ans, a, b):
-    updim = lambda x: x if x.ndim == a.ndim else x[..., None]
+    # b holds vectors exactly when the solution has one dimension less than a
+    updim = lambda x: x[..., None] if anp.ndim(ans) == anp.ndim(a) - 1 else x
     if argnum == 0:
-        return lambda g: -_dot(updim(solve(T(a), g)), T(updim(ans)))
+        return unbroadcast_f(a, lambda g: -_dot(updim(solve(T(a), g)), T(updim(ans))))
     else:
         return unbroadcast_f(b, lambda g: solve(T(a), g))
 
